@@ -94,7 +94,7 @@ func exclFor(s propSpec) []string {
 }
 
 // decl returns the declaration text for a mode: n (none) i (initial) h (inherit) l (initial
-// literal) v (explicit value).
+// literal) v (explicit value) u (var() of an undefined custom property).
 func (s propSpec) decl(mode byte, val string) string {
 	switch mode {
 	case 'i':
@@ -105,6 +105,10 @@ func (s propSpec) decl(mode byte, val string) string {
 		return s.Name + ": " + s.Init
 	case 'v':
 		return s.Name + ": " + val
+	case 'u':
+		// invalid at computed-value time (undefined custom property, no fallback): behaves as if
+		// there were no declaration (CSS Variables 1 §3.1: inherited or initial value)
+		return s.Name + ": var(--c04-undefined)"
 	}
 	return ""
 }
@@ -129,9 +133,9 @@ func (s propSpec) modes() []byte {
 		return []byte{'n'}
 	}
 	if s.Init == "" || s.InitDefect != "" {
-		return []byte{'n', 'i', 'h', 'v'}
+		return []byte{'n', 'i', 'h', 'v', 'u'}
 	}
-	return []byte{'n', 'i', 'h', 'l', 'v'}
+	return []byte{'n', 'i', 'h', 'l', 'v', 'u'}
 }
 
 // relations returns the equalities between the subject reads (named by mode letter) and the
@@ -169,6 +173,9 @@ func (s propSpec) relations(in *relIn, modes []byte, rel bool, direct bool, same
 		if has('v') {
 			eq("v", "P")
 		}
+		if has('u') {
+			eq("u", tw('u')) // a declaration is present: webrender does not propagate (= unset of a non-inherited property)
+		}
 		return
 	}
 	if s.inherited() {
@@ -179,6 +186,9 @@ func (s propSpec) relations(in *relIn, modes []byte, rel bool, direct bool, same
 		if has('h') {
 			eq("h", "P")
 		}
+		if has('u') {
+			eq("u", "P")
+		}
 	} else {
 		if !direct {
 			eq("M", "tM")
@@ -186,6 +196,9 @@ func (s propSpec) relations(in *relIn, modes []byte, rel bool, direct bool, same
 		eq("n", tw('n'))
 		if has('h') {
 			eq("h", parent)
+		}
+		if has('u') {
+			eq("u", tw('u'))
 		}
 	}
 	if has('i') {
@@ -201,7 +214,7 @@ func (s propSpec) relations(in *relIn, modes []byte, rel bool, direct bool, same
 }
 
 // genSweep builds the input of one sweep case.
-func genSweep(c sweepCase, perm int64, ua string) *relIn {
+func genSweep(c sweepCase, perm int64, ua, pseudo string) *relIn {
 	s := specTable[c.spec]
 	val, rel := "", false
 	if c.val >= 0 {
@@ -310,10 +323,10 @@ func genSweep(c sweepCase, perm int64, ua string) *relIn {
 			for _, m := range modes {
 				if declare {
 					st.WriteString(rule("x-"+string(m), with, pdecl))
-					st.WriteString(rule("x-"+string(m)+"::before", filler, with, s.decl(m, val)))
+					st.WriteString(rule("x-"+string(m)+"::"+pseudo, filler, with, s.decl(m, val)))
 				} else {
 					st.WriteString(rule("x-"+string(m), with))
-					st.WriteString(rule("x-"+string(m)+"::before", filler, with))
+					st.WriteString(rule("x-"+string(m)+"::"+pseudo, filler, with))
 				}
 			}
 			return doc(st.String(), subjectsBody())
@@ -321,8 +334,8 @@ func genSweep(c sweepCase, perm int64, ua string) *relIn {
 		d, t := mk(true), mk(false)
 		for _, m := range modes {
 			read("P"+string(m), d, "elem", "x-"+string(m), "", "")
-			read(string(m), d, "elem", "x-"+string(m), "before", "t"+string(m))
-			read("t"+string(m), t, "elem", "x-"+string(m), "before", "")
+			read(string(m), d, "elem", "x-"+string(m), pseudo, "t"+string(m))
+			read("t"+string(m), t, "elem", "x-"+string(m), pseudo, "")
 		}
 		read("tP", t, "elem", "x-n", "", "")
 		// all originating elements carry the same declaration: one of them is P
